@@ -189,7 +189,7 @@ PROPS = {
             'write(2) semantics: a return value r > 0 means the first r bytes were appended; -1/EINTR means nothing was written; errno is meaningful only after a return of -1 (a successful write may leave any value there)',
             'a compressor never returns an empty buffer (so _write_all is never called with size 0)',
         ],
-        'explanation': 'T20a: _write_all under any outcome sequence appends exactly the buffer or aborts, and aborts exactly when an error/zero return is met before completion; T20b: the finished file of any writer session is independent of the fragmentation; T20c: the errno-level loop (return value + errno as state, the C code's two tests), entered with any errno and with successful writes leaving anything in errno, equals the outcome-level loop. Correspondence: real writer under exhaustive single faults at every write call and random multi-fault schedules, also with EINTR / EIO left in errno on entry and by every successful write (the shim sets it), against both models.',
+        'explanation': 'T20a: _write_all under any outcome sequence appends exactly the buffer or aborts, and aborts exactly when an error/zero return is met before completion; T20b: the finished file of any writer session is independent of the fragmentation; T20c: the errno-level loop (return value + errno as state, the two tests of the C code), entered with any errno and with successful writes leaving anything in errno, equals the outcome-level loop. Correspondence: real writer under exhaustive single faults at every write call and random multi-fault schedules, also with EINTR / EIO left in errno on entry and by every successful write (the shim sets it), against both models.',
     },
     'C16': {
         'engines': [{'name': 'c16', 'timeout_quick': 300, 'timeout_thorough': 3600}],
